@@ -49,6 +49,19 @@
 (*     author, date) of every block.  Formatting is part of the history:   *)
 (*     an event without fobs leaves the object unformatted.                *)
 (*                                                                         *)
+(*     Unset.. = the attribute of the first block assigned None (v = what  *)
+(*     the block shows afterwards: 0 unset / rejected-and-was-unset, or    *)
+(*     the value it kept).                                                 *)
+(*  [kind |-> "proc", aea, form, lines, ops]                               *)
+(*     call history of one PROCESS: the text `lines` (c, v, h as above) is *)
+(*     parsed again and again; ops[i] = [s, a, ok, w, sr]: strict or       *)
+(*     lenient, allow_empty_author, no unexpected exception, number of     *)
+(*     warnings (lenient), raised ChangelogParseError (strict).  A parse   *)
+(*     depends on nothing but its own input: full mode compares every call *)
+(*     with the reference parse; verdict mode checks the statement across  *)
+(*     calls (ANY strict call raises exactly when ANY lenient call with    *)
+(*     the same allow_empty_author warns).                                 *)
+(*                                                                         *)
 (* TRACE_MODE = "full": every observable must equal the specification's.   *)
 (* TRACE_MODE = "verdict": only what the property statements promise:      *)
 (*     C15  ok; sr <=> w > 0; fmt => nf (edits: only where Specified);     *)
@@ -181,10 +194,29 @@ TEdit ==
    /\ (Diag => PrintT(<<"AT", tid, l>>))
    /\ (l' = N + 1 => PrintT(<<"ACCEPTED", tid>>))
 
+\* call history of one process on one text (Changelog!ProcHistoryFree / StrictIffWarnProc); the calls seen
+\* so far are kept in ops
+Chk(pred) == pred = TRUE
+TProc ==
+   /\ Tr.kind = "proc" /\ l <= N
+   /\ LET e    == Tr.ops[l]
+          ref  == PEofF(PFold(PInit, TraceText(Tr.lines), 1, e.a), Tr.form)
+          full == IF e.s THEN e.sr = (ref.nw > 0) ELSE e.w = ref.nw
+          c15  == /\ e.ok
+                  /\ \A k \in 1..Len(ops) :
+                        (ops[k].a = e.a /\ ops[k].s # e.s) =>
+                           (IF e.s THEN (e.sr <=> ops[k].w > 0) ELSE (ops[k].sr <=> e.w > 0))
+      IN /\ Chk(c15)
+         /\ Chk(~VerdictOnly => full)
+         /\ ops' = Append(ops, e)
+   /\ l' = l + 1 /\ UNCHANGED <<P, D, sraised, gs, rs, aea, text, gen, budget, phase, tid>>
+   /\ Chk(Diag => PrintT(<<"AT", tid, l>>))
+   /\ Chk(l' = N + 1 => PrintT(<<"ACCEPTED", tid>>))
+
 \* a trace without events is trivially explained
 TEmpty == /\ N = 0 /\ l = 1 /\ l' = 2 /\ UNCHANGED <<P, D, sraised, gs, rs>> /\ Frame /\ PrintT(<<"ACCEPTED", tid>>)
 
-TNext == TParse \/ TEdit \/ TEmpty
+TNext == TParse \/ TEdit \/ TProc \/ TEmpty
 TSpec == TInit /\ [][TNext]_tvars
 
 \* along every observed execution
